@@ -1,8 +1,8 @@
-\* one Elasticsearch store, larger bounds (4 records, two retries, three opens); repaired variant
+\* pipeline with every outcome and two chunks; repaired variant
 SPECIFICATION Spec
 CONSTANTS
-  TypeOf <- TEsEs
-  Active <- OnlyRc
+  TypeOf <- TMemEs
+  Active <- Both
   HasTrackParams <- TPdrv
   Keys <- K1
   TagKey = "tag_u"
@@ -12,14 +12,14 @@ CONSTANTS
   WorldsOf <- WorldsOne
   PutArgs <- PutOne
   ChunkSize = 2
-  MaxRetries = 2
+  MaxRetries = 1
   Alpha <- AlphaAll
-  RefreshAlpha <- RBoth
-  MaxRecs = 4
+  RefreshAlpha <- ROk
+  MaxRecs = 3
   MaxClock = 0
   MaxMeta = 0
   MaxCalls = 4
-  MaxOpens = 3
+  MaxOpens = 2
   ExplicitRel = 5
   ExplicitAbs = 7
   IdempotentIds = TRUE
